@@ -115,3 +115,32 @@ pub fn failing_client(builder: ClientBuilder, fail_at: usize) -> (Client, Peer) 
 	let c = builder.build_with_tokio(FailingSender { inner: tx_out, fail_at, count: 0 }, MockReceiver(rx_in));
 	(c, Peer { from_client: rx_out, to_client: tx_in })
 }
+
+/// A transport whose `receive()` assembles one message from several fragments and keeps the partial message INSIDE the
+/// future (like a WebSocket transport reading a fragmented frame): dropping the future half-way loses what was read.
+pub struct FragmentReceiver(pub mpsc::UnboundedReceiver<String>);
+impl TransportReceiverT for FragmentReceiver {
+	type Error = MockErr;
+	fn receive(&mut self) -> impl Future<Output = Result<ReceivedMessage, Self::Error>> + Send {
+		async move {
+			let mut buf = String::new();
+			loop {
+				match self.0.recv().await {
+					Some(f) => {
+						buf.push_str(&f);
+						if buf.ends_with('\n') {
+							return Ok(ReceivedMessage::Text(buf.trim_end().to_string()));
+						}
+					}
+					None => return Err(MockErr("connection closed".into())),
+				}
+			}
+		}
+	}
+}
+pub fn fragment_client(builder: ClientBuilder) -> (Client, mpsc::UnboundedReceiver<String>, mpsc::UnboundedSender<String>) {
+	let (tx_out, rx_out) = mpsc::unbounded_channel();
+	let (tx_in, rx_in) = mpsc::unbounded_channel();
+	let c = builder.build_with_tokio(MockSender(tx_out), FragmentReceiver(rx_in));
+	(c, rx_out, tx_in)
+}
